@@ -10,6 +10,8 @@ and step: `binpack_step_fresh`);  `InSpec cfg s e i` the action lies in the acti
 -/
 import JumanjiModel.Env.BinPack.Lemmas
 import JumanjiModel.Env.BinPack.Bounds
+import JumanjiModel.Env.BinPack.CoverLemmas
+import JumanjiModel.Env.BinPack.EpisodeLemmas
 open Jm BinPack
 
 namespace Props.C01
@@ -151,6 +153,55 @@ theorem binpack_sparse_reward (cfg : Cfg) (rnd : Rat → Rat) (s : State) (e i :
     (step cfg rnd s e i d).2.reward =
       [if (step cfg rnd s e i d).2.stepType = .last then utilisation (step cfg rnd s e i d).1 else 0] :=
   BinPack.sparse_reward cfg rnd s e i d hd
+
+/-! #### whole episodes
+An episode is a list of actions `(e, i, d)` (`d` = the EMS buffer drawn from the relation) played with `play` from a
+reset state; `withDense cfg b` is the same environment with the dense (`b = true`) / sparse reward function. -/
+
+/-- dense return along ANY legal play (complete or not) = increase of the volume utilisation -/
+theorem binpack_dense_return (cfg : Cfg) (rnd : Rat → Rat) (hd : cfg.dense = true) (as : List Act) (s : State)
+    (hF : Feasible s) (hf : Fresh cfg rnd s) (hlp : LegalPlay cfg rnd s as) :
+    utilisation (play cfg rnd s as).1 = utilisation s + (play cfg rnd s as).2 :=
+  (BinPack.dense_return cfg rnd hd as s hF hf hlp).1
+
+/-- sparse return of an episode whose last timestep is LAST and no earlier one = utilisation of the final state -/
+theorem binpack_sparse_return (cfg : Cfg) (rnd : Rat → Rat) (hd : cfg.dense = false) (as : List Act) (s : State)
+    (he : EndsAtLast cfg rnd s as) : (play cfg rnd s as).2 = utilisation (play cfg rnd s as).1 :=
+  BinPack.sparse_return cfg rnd hd as s he
+
+/-- THE COMBINED EPISODE THEOREM: the same legal action list played from a reset state under both reward functions,
+ending with its first LAST timestep: both runs reach the same final state `s`, dense return = sparse return =
+volume utilisation of `s`; `s` is reached by the `Run` relation of C06/C11, is feasible, and nothing more can be
+packed there -/
+theorem binpack_episode_returns (cfg : Cfg) (rnd : Rat → Rat) (s₀ : State) (h0 : ResetShape s₀)
+    (hf0 : Fresh cfg rnd s₀) (as : List Act) (hlp : LegalPlay cfg rnd s₀ as) (he : EndsAtLast cfg rnd s₀ as) :
+    (play (withDense cfg true) rnd s₀ as).1 = (play cfg rnd s₀ as).1 ∧
+    (play (withDense cfg false) rnd s₀ as).1 = (play cfg rnd s₀ as).1 ∧
+    (play (withDense cfg true) rnd s₀ as).2 = utilisation (play cfg rnd s₀ as).1 ∧
+    (play (withDense cfg false) rnd s₀ as).2 = utilisation (play cfg rnd s₀ as).1 ∧
+    Run cfg rnd s₀ as.length (play cfg rnd s₀ as).1 ∧ Feasible (play cfg rnd s₀ as).1 ∧
+    Complete cfg rnd (play cfg rnd s₀ as).1 := BinPack.episode_returns cfg rnd s₀ h0 hf0 as hlp he
+
+/-- `LegalPlay` lists and the `Run` relation describe the same episodes -/
+theorem binpack_run_iff_play (cfg : Cfg) (rnd : Rat → Rat) (s₀ : State) (n : Nat) (s : State) :
+    Run cfg rnd s₀ n s ↔ ∃ as : List Act, as.length = n ∧ LegalPlay cfg rnd s₀ as ∧ (play cfg rnd s₀ as).1 = s :=
+  ⟨BinPack.run_legalPlay cfg rnd s₀ n s,
+   fun ⟨as, hl, hp, hs⟩ => hl ▸ hs ▸ BinPack.legalPlay_run cfg rnd as s₀ hp⟩
+
+/-- the hypotheses are satisfiable: two 2×2×1 items into a 2×2×2 container shown through 2 EMS slots; the episode
+has two steps, the second is LAST, both returns are 1 -/
+private def exS : State :=
+  { container := ⟨0, 2, 0, 2, 0, 2⟩, ems := [⟨0, 2, 0, 2, 0, 2⟩, ⟨0, 0, 0, 0, 0, 0⟩], emsMask := [true, false]
+    items := [⟨2, 2, 1⟩, ⟨2, 2, 1⟩], itemsMask := [true, true], itemsPlaced := [false, false]
+    itemsLoc := [⟨0, 0, 0⟩, ⟨0, 0, 0⟩], actionMask := [[true, true], [false, false]], sortedIdx := [0, 1] }
+private def exAs : List Act :=
+  [(0, 0, ⟨[⟨0, 2, 0, 2, 1, 2⟩, ⟨0, 0, 0, 0, 0, 0⟩], [true, false]⟩),
+   (0, 1, ⟨[⟨0, 2, 0, 2, 1, 2⟩, ⟨0, 0, 0, 0, 0, 0⟩], [false, false]⟩)]
+example : ResetShape exS ∧ Fresh ⟨2, false, true⟩ id exS := by decide +kernel
+example : LegalPlay ⟨2, false, true⟩ id exS exAs := by simp only [LegalPlay, exAs]; decide +kernel
+example : EndsAtLast ⟨2, false, true⟩ id exS exAs := by simp only [EndsAtLast, exAs]; decide +kernel
+example : (play (withDense ⟨2, false, true⟩ true) id exS exAs).2 = 1 ∧
+    (play (withDense ⟨2, false, true⟩ false) id exS exAs).2 = 1 := by decide +kernel
 end Props.C08
 
 namespace Props.C11
@@ -238,4 +289,57 @@ theorem binpack_reset_feasible (s : State) (h : ResetShape s) : Feasible s := Bi
 example : Tiles ⟨0, 4, 0, 4, 0, 4⟩ [⟨0, 1, 0, 4, 0, 4⟩, ⟨1, 4, 0, 4, 0, 4⟩] :=
   BinPack.tiles_cut ⟨0, 4, 0, 4, 0, 4⟩ [] [] ⟨0, 4, 0, 4, 0, 4⟩ 0 1
     (BinPack.tiles_base _ (by unfold Space.Proper; decide)) (by decide) (by decide)
+
+/-! #### from the volume certificate to point-wise exact cover
+`b.hasCell (x, y, z)`: the unit cell `[x,x+1)×[y,y+1)×[z,z+1)` lies in the box `b` (integer corners, as in the code);
+`coverCount bs p` = number of boxes of `bs` containing the unit cell `p`;  `placedBoxes s` = the boxes occupied by the
+placed items of `s`, in index order;  `PlacedNonneg s` = placed items have non-negative sides. -/
+
+/-- EXACT COVER (counting argument over unit cells): in a tiling every unit cell of the container lies in exactly
+one box, and a unit cell outside the container in none -/
+theorem binpack_tiles_exact_cover (c : Space) (bs : List Space) (h : Tiles c bs) (p : Cell) :
+    coverCount bs p = if c.hasCell p then 1 else 0 := by
+  cases hp : c.hasCell p
+  · exact BinPack.tiles_outside c bs h p hp
+  · exact BinPack.tiles_exact_cover c bs h p hp
+
+/-- the same with the covering box named by its (unique) position in the list -/
+theorem binpack_tiles_exists_unique (c : Space) (bs : List Space) (h : Tiles c bs) (p : Cell)
+    (hp : c.hasCell p = true) :
+    ∃ k, (∃ hk : k < bs.length, bs[k].hasCell p = true) ∧
+      ∀ k', (∃ hk : k' < bs.length, bs[k'].hasCell p = true) → k' = k :=
+  BinPack.tiles_exists_unique c bs h p hp
+
+/-- THE LINK: the index-level certificate `PerfectPacking` the driver evaluates on `generate_solution` (plus
+non-negative sides) is exactly the list-level `Tiles` of the placed boxes that the splitting theorems preserve -/
+theorem binpack_perfectPacking_iff_tiles (s : State) :
+    (PerfectPacking s ∧ PlacedNonneg s) ↔
+      (WF s ∧ s.itemsPlaced = s.itemsMask ∧ Tiles s.container (placedBoxes s)) :=
+  BinPack.perfectPacking_iff_tiles s
+
+/-- `PlacedNonneg` follows from the certificate `ItemsPositive` of the instance -/
+theorem binpack_placedNonneg (s : State) (hp : ItemsPositive s) (hm : s.itemsPlaced = s.itemsMask) :
+    PlacedNonneg s := BinPack.placedNonneg_of_positive s hp hm
+
+/-- exact cover at index level: in a perfect packing every unit cell of the container lies in exactly one placed
+item, and no unit cell outside the container lies in a placed item -/
+theorem binpack_perfectPacking_exact_cover (s : State) (hp : PerfectPacking s) (hnn : PlacedNonneg s) (p : Cell)
+    (hc : s.container.hasCell p = true) :
+    ∃ i, (i < s.items.length ∧ s.itemsPlaced.getD i false = true ∧ (placedSpace s i).hasCell p = true) ∧
+      ∀ j, (j < s.items.length ∧ s.itemsPlaced.getD j false = true ∧ (placedSpace s j).hasCell p = true) →
+        j = i := BinPack.perfectPacking_exact_cover s hp hnn p hc
+theorem binpack_perfectPacking_outside (s : State) (hp : PerfectPacking s) (p : Cell)
+    (hc : s.container.hasCell p = false) (i : Nat) (hi : i < s.items.length)
+    (hpi : s.itemsPlaced.getD i false = true) : (placedSpace s i).hasCell p = false :=
+  BinPack.perfectPacking_outside s hp p hc i hi hpi
+
+/-- the hypotheses are satisfiable: a 2×2×2 container packed with a 2×2×1 slab and two 1×2×1 bars -/
+private def exP : State :=
+  { container := ⟨0, 2, 0, 2, 0, 2⟩, ems := [⟨0, 0, 0, 0, 0, 0⟩], emsMask := [false]
+    items := [⟨2, 2, 1⟩, ⟨1, 2, 1⟩, ⟨1, 2, 1⟩, ⟨0, 0, 0⟩], itemsMask := [true, true, true, false]
+    itemsPlaced := [true, true, true, false], itemsLoc := [⟨0, 0, 0⟩, ⟨0, 0, 1⟩, ⟨1, 0, 1⟩, ⟨0, 0, 0⟩]
+    actionMask := [[false, false, false, false]], sortedIdx := [0] }
+example : PerfectPacking exP ∧ PlacedNonneg exP ∧ ItemsPositive exP := by decide +kernel
+example : coverCount (placedBoxes exP) (1, 1, 1) = 1 ∧ coverCount (placedBoxes exP) (2, 1, 1) = 0 := by
+  decide +kernel
 end Props.C10
